@@ -98,9 +98,22 @@ func VerifC13_X_output_hash_stable() {
 	w := newWorld()
 	kind := sym.Choice("kind", 3) // 0 tainted 1 no-cache 2 cache disabled
 	same := flag("same_bytes")
-	cmdModel["build-t"] = &cmdBehaviour{writes: map[string]string{"p/out.txt": "v1"}}
+	// which declared output carries the changing bytes: a plain file output, the bin output alone,
+	// or the bin output next to an unchanged file output
+	outKind := sym.Choice("changing_output", 3)
+	cmdModel["build-t"] = &cmdBehaviour{writes: map[string]string{"p/out.txt": "v1", "p/other.txt": "const"}}
 	mk := func() *model.Target {
-		t := fileTarget("t", "build-t", "out.txt")
+		var t *model.Target
+		switch outKind {
+		case 0:
+			t = fileTarget("t", "build-t", "out.txt")
+		case 1:
+			t = fileTarget("t", "build-t")
+			t.BinOutput = model.NewOutput("file", "out.txt")
+		default:
+			t = fileTarget("t", "build-t", "other.txt")
+			t.BinOutput = model.NewOutput("file", "out.txt")
+		}
 		if kind == 1 {
 			t.Tags = []string{model.TagNoCache}
 		}
